@@ -220,6 +220,7 @@ type recoverArg struct {
 	Files   map[string]string `json:"files"` // storage image (base64), absent = file does not exist
 	TorID   string            `json:"id"`
 	Resume  bool              `json:"resume"` // ResumeOnStartup
+	Interrupt bool            `json:"interrupt"` // the recovery itself is interrupted: Stop while the allocator is at its first file, then Start again
 	Desc    string            `json:"desc"`
 }
 
@@ -272,6 +273,7 @@ func mkRecover() *lab.Scenario {
 		}
 	}
 	started := false
+	phase := 0
 	sc.Actions = func(w *lab.World) []lab.Action {
 		if w.Tor == nil {
 			return nil
@@ -283,7 +285,29 @@ func mkRecover() *lab.Scenario {
 		if !started {
 			started = true
 			claims(w, "loaded")
+			if arg.Interrupt {
+				// the allocator is held at its first Open until the torrent has been told to stop
+				w.Store.GateOpens = true
+				w.Vars["std"].(*lab.StdOpts).HoldStorage = true
+				phase = 1
+			}
 			return []lab.Action{{Label: "start", Do: func(w *lab.World) { w.CmdStart() }}}
+		}
+		switch phase {
+		case 1:
+			phase = 2
+			return []lab.Action{{Label: "stop during allocation", Do: func(w *lab.World) { w.CmdStop() }}}
+		case 2:
+			phase = 3
+			return []lab.Action{{Label: "storage goes on", Do: func(w *lab.World) {
+				w.Store.GateOpens = false
+				w.Vars["std"].(*lab.StdOpts).HoldStorage = false
+				w.Store.ReleaseAll()
+			}}}
+		case 3:
+			phase = 4
+			w.Count("interrupted_recoveries", 1)
+			return []lab.Action{{Label: "start again", Do: func(w *lab.World) { w.CmdStart() }}}
 		}
 		return nil
 	}
@@ -438,7 +462,7 @@ func buildImages(r *recording, thorough bool) []image {
 func TestC05(t *testing.T) {
 	lab.ServeIfWorker(t)
 	rep := core.NewReport("C05", "crashlab", "fault_enumeration")
-	rep.Rule = "download histories of a 4-piece / 2-file torrent with resume ticks, stop+start, verify and failing file writes (disk full; also in the middle of a piece that spans two files) at enumerated positions; for every prefix of the merged log of {data write, db page write, db fdatasync, db growth}, every torn variant of the in-flight data write and every subset of db page writes not yet covered by an fdatasync: rebuild both images, open a fresh session (ResumeOnStartup off and on), start, drain; plus every subset of files deleted at restart. Distinct = distinct (db image, storage image) pairs"
+	rep.Rule = "download histories of a 4-piece / 2-file torrent with resume ticks, stop+start, verify and failing file writes (disk full; also in the middle of a piece that spans two files) at enumerated positions; for every prefix of the merged log of {data write, db page write, db fdatasync, db growth}, every torn variant of the in-flight data write and every subset of db page writes not yet covered by an fdatasync: rebuild both images, open a fresh session (ResumeOnStartup off and on), start, drain; plus every subset of files deleted at restart, each also with the recovery itself interrupted (Stop while the allocator is at its first file, then Start again). Distinct = distinct (db image, storage image) pairs"
 	rep.Assumptions = []string{"data files are durable at WriteAt return (O_SYNC, asserted on the real file storage)", "torn db page writes inside one page and reordering across an fdatasync are not modelled", "at most the last 4 unsynced db writes are permuted"}
 	hs := []int{0, 1, 2, 3, 10, 11}
 	if core.Thorough() {
@@ -504,6 +528,10 @@ func TestC05(t *testing.T) {
 				for _, resume := range []bool{false} {
 					nImages++
 					runs = append(runs, lab.Run{Scenario: "c05recover", Arg: recoverArg{DB: base64.StdEncoding.EncodeToString(im.db), Files: fl, TorID: r.TorID, Resume: resume, Desc: fmt.Sprintf("history %d: %s", h, desc)}, Budget: 0})
+					if len(del) > 0 {
+						// files are missing at restart: also the recovery that is itself interrupted
+						runs = append(runs, lab.Run{Scenario: "c05recover", Arg: recoverArg{DB: base64.StdEncoding.EncodeToString(im.db), Files: fl, TorID: r.TorID, Resume: resume, Interrupt: true, Desc: fmt.Sprintf("history %d: %s; Stop while the allocator is at its first file, Start again", h, desc)}, Budget: 0})
+					}
 				}
 			}
 		}
